@@ -1,14 +1,27 @@
 import BronVerif.Lemmas.Cbor
+import BronVerif.Lemmas.CborCanon
 import BronVerif.Lemmas.CborDiscipline
+import BronVerif.Lemmas.WireAccess
+import BronVerif.Lemmas.WireShard
+import BronVerif.Lemmas.WirePaillier
 /-!
 # C12 — wire formats round-trip deterministically; decoding validates like construction
 
-Theorems about the CBOR model the driver executes (`Model/Cbor.lean`: `encode` = what
-`serde.MarshalCBOR` must produce, `decode` = what `serde.UnmarshalCBOR` may accept at container
-level) and about the regenerated table of all `UnmarshalCBOR` methods (`Gen/UnmarshalFacts.lean`).
+Theorems about
+
+* the CBOR model the driver executes (`Model/Cbor.lean`: `encode` = what `serde.MarshalCBOR` must
+  produce, `decode` = what `serde.UnmarshalCBOR` may accept at container level);
+* the typed wire models the driver executes on every `canon` line and every accepted mutant
+  (`Model/Wire.lean`: per type `decT`, `encT`, `validT`; byte level `decodeWith decT`,
+  `encodeWith encT`): `decodeT_valid` — whatever decodes satisfies the constructor's rules — and
+  `decodeT_encodeT` — every valid value is the decoding of its own encoding (so the validity
+  predicates are not vacuous and the encodings are injective);
+* the regenerated table of all `UnmarshalCBOR` methods (`Gen/UnmarshalFacts.lean`).
 -/
 namespace BronVerif.Props.C12
-open BronVerif.Cbor
+open BronVerif.Cbor BronVerif.Wire
+
+/-! ## the generic codec -/
 
 /-- Round trip of the order-preserving encoder: every well-formed item (arguments below 2^64, no
 duplicate map keys, no bignum tags, at most 32 nesting levels) is decoded back exactly, with no
@@ -16,15 +29,24 @@ bytes left over. -/
 theorem cbor_roundtrip_raw (x : Item) (hx : wf x = true) (hd : depth x ≤ maxDepth) :
     decode (encRaw x) = some x := decode_encRaw x hx hd
 
-/-- Full statement: the deterministic encoder round-trips on well-formed items whose maps are
-already in core-deterministic order. -/
+/-- insertion sort is the identity on strictly ascending keys: a canonical item is its own normal
+form -/
+theorem canon_fixed (x : Item) (hx : wf x = true) (hc : isCanon x = true) : canon x = x :=
+  canon_of_isCanon x hx hc
+
+/-- **Round trip** of the deterministic encoder at full strength: a well-formed item whose maps are
+in core-deterministic order is decoded back exactly. -/
+theorem cbor_roundtrip (x : Item) (hx : wf x = true) (hc : isCanon x = true)
+    (hd : depth x ≤ maxDepth) : decode (encode x) = some x := decode_encode x hx hc hd
+
+/-- the statement kept from the first version of this file, now a theorem -/
 def cbor_roundtrip_statement : Prop :=
   ∀ x : Item, wf x = true → isCanon x = true → depth x ≤ maxDepth → decode (encode x) = some x
 
-/-- Proved part: `decode ∘ encode` returns the core-deterministic normal form `canon x`.
-Missing for `cbor_roundtrip_statement`: the lemma `isCanon x → wf x → canon x = x` (insertion sort
-is the identity on strictly ascending keys). -/
-theorem cbor_roundtrip_partial (x : Item) (hx : wf (canon x) = true)
+theorem cbor_roundtrip_statement_holds : cbor_roundtrip_statement := cbor_roundtrip
+
+/-- For arbitrary (unsorted) items `decode ∘ encode` returns the core-deterministic normal form. -/
+theorem cbor_roundtrip_normal_form (x : Item) (hx : wf (canon x) = true)
     (hd : depth (canon x) ≤ maxDepth) : decode (encode x) = some (canon x) :=
   decode_encRaw (canon x) hx hd
 
@@ -32,10 +54,17 @@ theorem cbor_roundtrip_partial (x : Item) (hx : wf (canon x) = true)
 theorem encode_injective (x y : Item) (hx : wf (canon x) = true) (hy : wf (canon y) = true)
     (dx : depth (canon x) ≤ maxDepth) (dy : depth (canon y) ≤ maxDepth)
     (h : encode x = encode y) : canon x = canon y := by
-  have h1 := cbor_roundtrip_partial x hx dx
-  have h2 := cbor_roundtrip_partial y hy dy
+  have h1 := cbor_roundtrip_normal_form x hx dx
+  have h2 := cbor_roundtrip_normal_form y hy dy
   rw [h] at h1
   exact Option.some.inj (h1.symm.trans h2)
+
+/-- **Canonical encodings are unique**: two canonical well-formed items with equal encodings are
+equal. -/
+theorem canonical_unique (x y : Item) (hx : wf x = true) (hy : wf y = true)
+    (cx : isCanon x = true) (cy : isCanon y = true) (dx : depth x ≤ maxDepth)
+    (dy : depth y ≤ maxDepth) (h : encode x = encode y) : x = y :=
+  BronVerif.Cbor.canonical_unique x y hx hy cx cy dx dy h
 
 /-- … and so does the order-preserving encoding. -/
 theorem encRaw_injective (x y : Item) (hx : wf x = true) (hy : wf y = true)
@@ -44,6 +73,11 @@ theorem encRaw_injective (x y : Item) (hx : wf x = true) (hy : wf y = true)
   have h2 := decode_encRaw y hy dy
   rw [h] at h1
   exact Option.some.inj (h1.symm.trans h2)
+
+/-- unsigned-integer map keys (shareholder IDs, row indices): numeric order is the bytewise order of
+the encoded keys, so ascending IDs are in core-deterministic order -/
+theorem uint_keys_ascending (ids : List Nat) (hs : ascNat ids = true) (hb : ∀ i ∈ ids, i < two64) :
+    keysAscending (ids.map Item.uint) = true := keysAscending_uints_asc ids hs hb
 
 /-- Trailing bytes after a complete encoding are rejected. -/
 theorem decode_strict_trailing (x : Item) (hx : wf (canon x) = true)
@@ -60,6 +94,188 @@ theorem decode_strict_indefinite (f d : Nat) (b : UInt8) (rest : Bytes)
 
 /-- The empty input is rejected. -/
 theorem decode_strict_empty : decode [] = none := by decide
+
+/-- **Duplicate map keys are rejected**: a map head followed by the encodings of pairs among which
+a key repeats is refused wherever it occurs (any position, any fuel, any remaining depth, any
+continuation). -/
+theorem decode_strict_dupkeys (kvs : List Item) (hw : wfList kvs = true)
+    (he : kvs.length % 2 = 0) (hl : kvs.length / 2 < two64) (hdup : noDupKeys kvs = false)
+    (f d : Nat) (rest : Bytes) :
+    decItem f d (head 5 (kvs.length / 2) ++ encList kvs ++ rest) = none :=
+  decItem_dupkeys kvs hw he hl hdup f d rest
+
+/-- … in particular as a complete input. -/
+theorem decode_strict_dupkeys_top (kvs : List Item) (hw : wfList kvs = true)
+    (he : kvs.length % 2 = 0) (hl : kvs.length / 2 < two64) (hdup : noDupKeys kvs = false) :
+    decode (encRaw (.map kvs)) = none := decode_dupkeys kvs hw he hl hdup
+
+/-- **Bignum tags (2, 3) are rejected**, however the tag head is spelled. -/
+theorem decode_strict_bignum_tag (f d : Nat) (bs rest : Bytes) (ai n : Nat)
+    (h : decHead bs = some (6, ai, n, rest)) (hn : n = 2 ∨ n = 3) : decItem f d bs = none :=
+  decItem_bignum_tag f d bs rest ai n h hn
+
+/-- The decoder's answer does not depend on the fuel / depth budget once it succeeds. -/
+theorem decode_budget_monotone (f d : Nat) (bs : Bytes) (r : Item × Bytes)
+    (h : decItem f d bs = some r) (f' d' : Nat) (hf : f ≤ f') (hd : d ≤ d') :
+    decItem f' d' bs = some r := decItem_mono f d bs r h f' d' hf hd
+
+/-! ## access structures (all five families) -/
+
+theorem decodeThreshold_valid (b : Bytes) (v : Threshold)
+    (h : decodeWith decThreshold b = some v) : validThreshold v = true :=
+  BronVerif.Wire.decodeThreshold_valid b v h
+theorem decodeThreshold_encodeThreshold (v : Threshold) (h : validThreshold v = true) :
+    decodeWith decThreshold (encodeWith encThreshold v) = some v :=
+  BronVerif.Wire.decodeThreshold_encodeThreshold v h
+theorem encodeThreshold_injective (v w : Threshold) (hv : validThreshold v = true)
+    (hw : validThreshold w = true) (h : encodeWith encThreshold v = encodeWith encThreshold w) :
+    v = w := BronVerif.Wire.encodeThreshold_injective v w hv hw h
+
+theorem decodeUnanimity_valid (b : Bytes) (v : Unanimity)
+    (h : decodeWith decUnanimity b = some v) : validUnanimity v = true :=
+  BronVerif.Wire.decodeUnanimity_valid b v h
+theorem decodeUnanimity_encodeUnanimity (v : Unanimity) (h : validUnanimity v = true) :
+    decodeWith decUnanimity (encodeWith encUnanimity v) = some v :=
+  BronVerif.Wire.decodeUnanimity_encodeUnanimity v h
+theorem encodeUnanimity_injective (v w : Unanimity) (hv : validUnanimity v = true)
+    (hw : validUnanimity w = true) (h : encodeWith encUnanimity v = encodeWith encUnanimity w) :
+    v = w := BronVerif.Wire.encodeUnanimity_injective v w hv hw h
+
+theorem decodeCNF_valid (b : Bytes) (v : CNF) (h : decodeWith decCNF b = some v) :
+    validCNF v = true := BronVerif.Wire.decodeCNF_valid b v h
+theorem decodeCNF_encodeCNF (v : CNF) (h : validCNF v = true) :
+    decodeWith decCNF (encodeWith encCNF v) = some v := BronVerif.Wire.decodeCNF_encodeCNF v h
+theorem encodeCNF_injective (v w : CNF) (hv : validCNF v = true) (hw : validCNF w = true)
+    (h : encodeWith encCNF v = encodeWith encCNF w) : v = w :=
+  BronVerif.Wire.encodeCNF_injective v w hv hw h
+
+theorem decodeHierarchical_valid (b : Bytes) (v : Hierarchical)
+    (h : decodeWith decHierarchical b = some v) : validHierarchical v = true :=
+  BronVerif.Wire.decodeHierarchical_valid b v h
+theorem decodeHierarchical_encodeHierarchical (v : Hierarchical) (h : validHierarchical v = true) :
+    decodeWith decHierarchical (encodeWith encHierarchical v) = some v :=
+  BronVerif.Wire.decodeHierarchical_encodeHierarchical v h
+theorem encodeHierarchical_injective (v w : Hierarchical) (hv : validHierarchical v = true)
+    (hw : validHierarchical w = true)
+    (h : encodeWith encHierarchical v = encodeWith encHierarchical w) : v = w :=
+  BronVerif.Wire.encodeHierarchical_injective v w hv hw h
+
+theorem decodeBoolAS_valid (b : Bytes) (v : BoolAS) (h : decodeWith decBoolAS b = some v) :
+    validBoolAS v = true := BronVerif.Wire.decodeBoolAS_valid b v h
+theorem decodeBoolAS_encodeBoolAS (v : BoolAS) (h : validBoolAS v = true) :
+    decodeWith decBoolAS (encodeWith encBoolAS v) = some v :=
+  BronVerif.Wire.decodeBoolAS_encodeBoolAS v h
+theorem encodeBoolAS_injective (v w : BoolAS) (hv : validBoolAS v = true)
+    (hw : validBoolAS w = true) (h : encodeWith encBoolAS v = encodeWith encBoolAS w) : v = w :=
+  BronVerif.Wire.encodeBoolAS_injective v w hv hw h
+
+/-! ## shares, matrices, MSP, verification vector, public material, shard, signature
+
+Generic over the element codecs (`ElemIO`: `FromBytes`/`Bytes` of the scalar field,
+`FromCompressed`/`ToCompressed` of the group); the round-trip direction assumes them lawful
+(`dec (enc x) = some x`, lengths below 2^64), the validity direction assumes nothing. The driver
+instantiates them with `Fp n` and the runtime curve points (k256: SEC1, BLS12-381 G1: Zcash form). -/
+
+section algebraic
+variable {F G : Type}
+
+theorem decodeMatW_valid (decE : Item → Option F) (b : Bytes) (m : MatW F)
+    (h : decodeWith (decMatW decE) b = some m) : validMatW m = true :=
+  BronVerif.Wire.decodeMatW_valid decE b m h
+theorem decodeMatW_encodeMatW (encE : F → Item) (decE : Item → Option F) (d : Nat)
+    (hde : ∀ x, decE (encE x) = some x)
+    (hce : ∀ x, wf (encE x) = true ∧ isCanon (encE x) = true ∧ depth (encE x) ≤ d)
+    (hd : d + 2 ≤ maxDepth) (m : MatW F) (hv : validMatW m = true) :
+    decodeWith (decMatW decE) (encodeWith (encMatW encE) m) = some m :=
+  BronVerif.Wire.decodeMatW_encodeMatW encE decE d hde hce hd m hv
+
+/-- KW share: non-zero holder, at least one component -/
+theorem decodeShareW_valid (io : ElemIO F) (b : Bytes) (s : ShareW F)
+    (h : decodeWith (decShareW io) b = some s) : validShareW s = true :=
+  BronVerif.Wire.decodeShareW_valid io b s h
+theorem decodeShareW_encodeShareW (io : ElemIO F) (hio : io.Lawful) (s : ShareW F)
+    (hv : validShareW s = true) :
+    decodeWith (decShareW io) (encodeWith (encShareW io) s) = some s :=
+  BronVerif.Wire.decodeShareW_encodeShareW io hio s hv
+
+/-- MSP: a non-zero label for exactly the rows of the matrix -/
+theorem decodeMSPW_valid (io : ElemIO F) (b : Bytes) (m : MSPW F)
+    (h : decodeWith (decMSPW io) b = some m) : validMSPW m = true :=
+  BronVerif.Wire.decodeMSPW_valid io b m h
+theorem decodeMSPW_encodeMSPW (io : ElemIO F) (hio : io.Lawful) (m : MSPW F)
+    (hv : validMSPW m = true) : decodeWith (decMSPW io) (encodeWith (encMSPW io) m) = some m :=
+  BronVerif.Wire.decodeMSPW_encodeMSPW io hio m hv
+
+/-- Feldman verification vector: a non-empty column -/
+theorem decodeVV_valid (io : ElemIO G) (b : Bytes) (V : List G)
+    (h : decodeWith (decVV io) b = some V) : validVV V = true :=
+  BronVerif.Wire.decodeVV_valid io b V h
+theorem decodeVV_encodeVV (io : ElemIO G) (hio : io.Lawful) (V : List G) (hv : validVV V = true) :
+    decodeWith (decVV io) (encodeWith (encVV io) V) = some V :=
+  BronVerif.Wire.decodeVV_encodeVV io hio V hv
+
+/-- `BasePublicMaterial`: valid MSP, valid vector, `len V` = number of MSP columns -/
+theorem decodePMW_valid (fio : ElemIO F) (gio : ElemIO G) (b : Bytes) (p : PMW F G)
+    (h : decodeWith (decPMW fio gio) b = some p) : validPMW p = true :=
+  BronVerif.Wire.decodePMW_valid fio gio b p h
+theorem decodePMW_encodePMW (fio : ElemIO F) (gio : ElemIO G) (hf : fio.Lawful) (hg : gio.Lawful)
+    (p : PMW F G) (hv : validPMW p = true) :
+    decodeWith (decPMW fio gio) (encodeWith (encPMW fio gio) p) = some p :=
+  BronVerif.Wire.decodePMW_encodePMW fio gio hf hg p hv
+
+section shard
+variable [Add G] [OfNat G 0] [HSMul F G G] [DecidableEq G]
+
+/-- `BaseShard`: whatever bytes decode as a shard satisfy `NewBaseShard`'s rules … -/
+theorem decodeShardW_valid (fio : ElemIO F) (gio : ElemIO G) (g : G) (b : Bytes) (sh : ShardW F G)
+    (h : decodeWith (decShardW fio gio g) b = some sh) : validShardW g sh = true :=
+  BronVerif.Wire.decodeShardW_valid fio gio g b sh h
+
+/-- … in particular the private share matches the public data in EVERY component
+(`shareMatches` = `Vss.feldmanVerify`: `sₖ • g = (M_{rows(id)} · V)ₖ` for all `k`, lengths included) -/
+theorem decodeShardW_shareMatches (fio : ElemIO F) (gio : ElemIO G) (g : G) (b : Bytes)
+    (sh : ShardW F G) (h : decodeWith (decShardW fio gio g) b = some sh) :
+    shareMatches g sh = true := BronVerif.Wire.decodeShardW_shareMatches fio gio g b sh h
+
+theorem decodeShardW_encodeShardW (fio : ElemIO F) (gio : ElemIO G) (hf : fio.Lawful)
+    (hg : gio.Lawful) (g : G) (sh : ShardW F G) (hv : validShardW g sh = true) :
+    decodeWith (decShardW fio gio g) (encodeWith (encShardW fio gio) sh) = some sh :=
+  BronVerif.Wire.decodeShardW_encodeShardW fio gio hf hg g sh hv
+
+end shard
+
+section sig
+variable [OfNat F 0] [DecidableEq F]
+
+/-- ECDSA signature: `r, s ≠ 0`, recovery id absent or at most 3 -/
+theorem decodeSigW_valid (io : ElemIO F) (b : Bytes) (s : SigW F)
+    (h : decodeWith (decSigW io) b = some s) : validSigW s = true :=
+  BronVerif.Wire.decodeSigW_valid io b s h
+theorem decodeSigW_encodeSigW (io : ElemIO F) (hio : io.Lawful) (s : SigW F)
+    (hv : validSigW s = true) : decodeWith (decSigW io) (encodeWith (encSigW io) s) = some s :=
+  BronVerif.Wire.decodeSigW_encodeSigW io hio s hv
+
+end sig
+end algebraic
+
+/-! ## Paillier public key: the size floor -/
+
+theorem decodePaillierPK_valid (b : Bytes) (v : PaillierPK)
+    (h : decodeWith decPaillierPK b = some v) : validPaillierPK v = true :=
+  BronVerif.Wire.decodePaillierPK_valid b v h
+
+/-- a decoded Paillier key has a modulus of at least `2^3071` (3072 bits, `base.IFCKeyLength`) -/
+theorem decodePaillierPK_floor (b : Bytes) (v : PaillierPK)
+    (h : decodeWith decPaillierPK b = some v) : 2 ^ (ifcKeyLength - 1) ≤ beVal v.nBytes := by
+  have hv := decodePaillierPK_valid b v h
+  simp only [validPaillierPK, Bool.and_eq_true, decide_eq_true_eq] at hv
+  exact hv.1
+
+theorem decodePaillierPK_encodePaillierPK (v : PaillierPK) (h : validPaillierPK v = true) :
+    decodeWith decPaillierPK (encodeWith encPaillierPK v) = some v :=
+  BronVerif.Wire.decodePaillierPK_encodePaillierPK v h
+
+/-! ## decoder discipline (fact table) -/
 
 /-- **Decoder discipline** (T): over the complete regenerated table of `UnmarshalCBOR` methods,
 each decodes into its DTO with `serde.UnmarshalCBOR` and then calls the validating constructor /
@@ -83,16 +299,52 @@ example : (canon sample == sample) = false := by decide
 example : encode sample =
     [0xa2, 0x61, 0x61, 0xd9, 0x13, 0xbd, 0x43, 1, 2, 3, 0x61, 0x62, 0x83, 0x19, 0x03, 0xe8, 0x23, 0xf6] := by decide
 example : decode (encode sample) = some (canon sample) := by rfl
+/-- `cbor_roundtrip` on the canonical form of the sample: its hypotheses hold -/
+example : wf (canon sample) = true ∧ isCanon (canon sample) = true := by decide
+example : decode (encode (canon sample)) = some (canon sample) :=
+  cbor_roundtrip (canon sample) (by decide) (by decide) (by decide)
 example : decode (encode sample ++ [0]) = none := by decide
 /-- duplicate keys, also in a non-shortest spelling, are rejected -/
 example : decode [0xa2, 0x01, 0x02, 0x18, 0x01, 0x03] = none := by decide
-/-- indefinite-length array, bignum tag, 33 nested arrays -/
+example (f d : Nat) : decItem f d ([0xa2, 0x01, 0x02, 0x01, 0x03] ++ [0xff]) = none :=
+  decode_strict_dupkeys [.uint 1, .uint 2, .uint 1, .uint 3] (by decide) (by decide) (by decide)
+    (by decide) f d [0xff]
+/-- indefinite-length array, bignum tag (short and long spelling), 33 nested arrays -/
 example : decode [0x9f, 0x01, 0xff] = none := by decide
 example : decode [0xc2, 0x41, 0x01] = none := by decide
+example (f d : Nat) : decItem f d [0xd8, 0x03, 0x41, 0x01] = none :=
+  decode_strict_bignum_tag f d _ [0x41, 0x01] 24 3 (by rfl) (Or.inr rfl)
 example : decode (List.replicate 33 0x81 ++ [0x01]) = none := by decide
 example : (decode (List.replicate 32 0x81 ++ [0x01])).isSome = true := by decide
 /-- non-shortest heads and unsorted maps are accepted by the decoder (as fxamacker does) but are
 not what the encoder produces -/
 example : decode [0x18, 0x05] = some (.uint 5) ∧ encode (.uint 5) = [0x05] := ⟨by rfl, by decide⟩
+
+/-- a real encoding produced by the library: `threshold.Threshold` 2-of-{1,4} -/
+example : decodeWith decThreshold
+    [0xd9, 0x13, 0xbd, 0xa2, 0x69, 0x74, 0x68, 0x72, 0x65, 0x73, 0x68, 0x6f, 0x6c, 0x64, 0x02, 0x6c,
+     0x73, 0x68, 0x61, 0x72, 0x65, 0x68, 0x6f, 0x6c, 0x64, 0x65, 0x72, 0x73, 0xa2, 0x01, 0xf5, 0x04, 0xf5]
+    = some ⟨2, [1, 4]⟩ := by decide
+/-- the same bytes with threshold 3 (> 2 shareholders) and threshold 1 are not accepted -/
+example : decodeWith decThreshold
+    [0xd9, 0x13, 0xbd, 0xa2, 0x69, 0x74, 0x68, 0x72, 0x65, 0x73, 0x68, 0x6f, 0x6c, 0x64, 0x03, 0x6c,
+     0x73, 0x68, 0x61, 0x72, 0x65, 0x68, 0x6f, 0x6c, 0x64, 0x65, 0x72, 0x73, 0xa2, 0x01, 0xf5, 0x04, 0xf5]
+    = none := by decide
+example : validThreshold ⟨1, [1, 4]⟩ = false ∧ validThreshold ⟨2, [0, 4]⟩ = false := by decide
+/-- the non-ideal CNF structure with maximal unqualified sets {1,2},{3,4},{5} -/
+example : validCNF ⟨[1, 2, 3, 4, 5], [[1, 2], [3, 4], [5]]⟩ = true := by decide
+example : validCNF ⟨[1, 2, 3, 4, 5], [[1, 2], [1, 2, 3], [5]]⟩ = false := by decide
+example : validUnanimity ⟨[3, 7]⟩ = true ∧ validUnanimity ⟨[3]⟩ = false := by decide
+example : validHierarchical ⟨[⟨1, [1, 2]⟩, ⟨3, [3, 4]⟩]⟩ = true
+    ∧ validHierarchical ⟨[⟨2, [1, 2]⟩, ⟨2, [3]⟩]⟩ = false := by decide
+
+/-- the shard predicate on a holder with two MSP rows: a wrong FIRST component is refused although
+the last one is right (toy group `G = ℤ`, `g = 1`) -/
+example : validShardW (1 : Int) (shd_exShard 12 19) = true
+    ∧ validShardW (1 : Int) (shd_exShard 13 19) = false
+    ∧ validShardW (1 : Int) (shd_exShard 12 20) = false := by decide
+
+example : validPaillierPK ⟨0x80 :: List.replicate 383 1⟩ = true := by decide +kernel
+example : validPaillierPK ⟨0x7f :: List.replicate 383 0xff⟩ = false := by decide +kernel
 
 end BronVerif.Props.C12
